@@ -68,3 +68,19 @@ Definition strncat_s (c : cfg) (d dmax s slen destbos srcbos : Z) : prog Z :=
 
 (* _strnlen_s_chk(str, smax, strbos) *)
 Definition strnlen_s (c : cfg) (str smax bos : Z) : prog Z := strnlen_s_prog c str smax bos.
+
+(* _strzero_s_chk(dest, dmax, destbos) *)
+Fixpoint strzero_loop (c : cfg) (n : nat) (d : Z) : prog Z :=
+  match n with
+  | O => (* while (dmax && *dest) ended on dmax == 0; then "if (!*dest)" reads dest[dmax] (null-slack build) *)
+      if null_slack c then Load 1 d (fun ch => if ch =? 0 then Fill d 0 0 (Ret EOK) else Ret EOK) else Ret EOK
+  | S n' => Load 1 d (fun ch =>
+      if ch =? 0 then (if null_slack c then Fill d (Z.of_nat n) 0 (Ret EOK) else Ret EOK)
+      else Store 1 d 0 (strzero_loop c n' (d + 1)))
+  end.
+Definition strzero_s (c : cfg) (d dmax destbos : Z) : prog Z :=
+  if d =? 0 then fail_str ESNULLP
+  else if dmax =? 0 then fail_str ESZEROL
+  else if destbos =? BOS_UNKNOWN then (if rmax_str c <? dmax then fail_str ESLEMAX else strzero_loop c (Z.to_nat dmax) d)
+  else if destbos <? dmax then (if rmax_str c <? dmax then fail_str ESLEMAX else fail_str EOVERFLOW)
+  else strzero_loop c (Z.to_nat dmax) d.
